@@ -42,6 +42,18 @@ def Answer.nAltReported (a : Answer) : Nat := if a.solStub || a.countSol then a.
 end MpVerif.C10
 
 namespace MpVerif.C10
+/-- how the driver was invoked, as far as `AppSolutionHandlerImpl::HandleSolution` is concerned:
+`-AMPL` given, value of option `wantsol` (bit sum 1 write .sol, 2 print primal, 4 print dual, 8 suppress message),
+size of the banner already printed, whether anything was printed after it -/
+structure AppCtx where
+  ampl : Bool
+  wantsol : Nat
+  bannerSize : Nat := 0
+  hasOutput : Bool := false
+deriving Repr
+end MpVerif.C10
+
+namespace MpVerif.C10
 /-! Boolean integer comparisons used by the generated predicates (so that unfolding an
 enumerator does not leave a stale `Decidable` instance behind). -/
 def leB (a b : Int) : Bool := decide (a ≤ b)
